@@ -164,28 +164,33 @@ def side_polys(side):
     return out
 
 def certificate(goal, hyps, timeout_ms=120000):
-    """Show goal ≡ 0 modulo the ideal (hyps) over F_p: an untrusted CAS proposes cofactors c_i with
-    goal = sum c_i h_i (mod p); z3 then checks that identity on the structural terms.  Returns (status, secs, info)."""
-    import sympy
+    """Show goal ≡ 0 modulo the ideal (hyps) over F_p: an untrusted search (dv/cert.py, Buchberger with cofactor tracking)
+    proposes cofactors c_i with goal = sum c_i h_i (mod p); z3 then checks that identity.  Returns (status, secs, info)."""
+    from . import cert
     t0 = time.time()
-    symtab = {}
-    g = poly.to_sympy(goal, symtab); hs = [poly.to_sympy(h, symtab) for h in hyps]
-    syms = sorted(symtab.values(), key=lambda x: x.name)
-    if g == 0: return 'proved', 0.0, 'goal is identically zero'
+    if goal.is_zero_poly(): return 'proved', 0.0, 'goal is identically zero'
     p = goal.p
-    try:
-        cof, rem = sympy.reduced(g, hs, *syms, modulus=p)
-    except Exception as e:
-        return 'inconclusive', time.time() - t0, f'sympy.reduced failed: {e}'
-    if rem != 0:
-        # try with a Groebner basis of the hypotheses (cofactors w.r.t. the basis, which itself is certified)
-        return 'inconclusive', time.time() - t0, 'nonzero remainder modulo the side relations'
-    # rebuild cofactors as FE and check the identity goal == sum c_i*h_i with z3 (coefficients reduced mod p on both sides)
+    vars_ = sorted({v for f in [goal] + list(hyps) for m in f.d for v, _ in m})
+    ix = {v: i for i, v in enumerate(vars_)}
+    def vec(fe):
+        out = {}
+        for m, c in fe.d.items():
+            e = [0] * len(vars_)
+            for v, k in m: e[ix[v]] = k
+            out[tuple(e)] = c % p
+        return out
+    cofs = cert.membership(vec(goal), [vec(h) for h in hyps], len(vars_), p, timeout=timeout_ms / 1000)
+    if cofs is None: return 'inconclusive', time.time() - t0, 'no cofactor certificate found'
     acc = FE.const(goal.field, 0)
-    for c, h in zip(cof, hyps):
-        acc = acc.add(sympy_to_fe(c, goal.field).mul(h))
+    for cd, h in zip(cofs, hyps):
+        d = {}
+        for e, c in cd.items():
+            m = tuple(sorted((vars_[i], k) for i, k in enumerate(e) if k))
+            d[m] = poly.centred(c, p)
+        d = {m: c for m, c in d.items() if c}
+        acc = acc.add(goal_reduced(FE(goal.field, d, None)).mul(goal_reduced(h)))
     ans, model, smt = prove_equal([(goal_reduced(goal), goal_reduced(acc))], timeout_ms)
-    if ans == 'unsat' and goal.key() == acc.key(): return 'proved', time.time() - t0, f'cofactor certificate with {len(hyps)} relation(s) checked by z3'
+    if ans == 'unsat' and goal.key() == acc.key(): return 'proved', time.time() - t0, f'cofactor certificate over {len(hyps)} relation(s) checked by z3'
     return 'inconclusive', time.time() - t0, f'certificate identity not confirmed (z3: {ans})'
 
 def goal_reduced(fe):
@@ -223,3 +228,144 @@ def oncurve_obligation(name, X, Y, Z, T, side):
         tot += dt; infos.append(info)
         if st != 'proved': return Ob(name, 'inconclusive', info, tot, 'sympy cofactors + z3 identity')
     return Ob(name, 'proved', '; '.join(infos), tot, 'sympy cofactors + z3 identity', {'goal': 'Y^2 - X^2 - Z^2 - d T^2 in ideal(side relations); T Z - X Y likewise', 'relations': len(hyps)})
+
+# ---------------------------------------------------------------------------------------------- C03 encode
+def sym_element(build, names, neg_xy=False, scale=None):
+    X, Y, Z, T = [FE.sym('Fq', n) for n in names]
+    if neg_xy: X, Y = X.neg(), Y.neg()
+    if scale is not None: X, Y, Z, T = [scale.mul(c) for c in (X, Y, Z, T)]
+    return mk_element(build, X, Y, Z, T), (X, Y, Z, T)
+
+def mk_element(build, X, Y, Z, T):
+    if build == 'ark': return Agg('ark_curve::element::projective::Element', [Agg('Projective', [X, Y, T, Z])])
+    return Agg('min_curve::element::Element', [X, Y, Z, T])
+
+def pat_compress_to_field(build):
+    return r'^ark_curve::encoding::<impl at [^>]*>::vartime_compress_to_field$' if build == 'ark' else r'^min_curve::element::<impl at [^>]*>::vartime_compress_to_field$'
+
+def compare_fe(name, code, sp, samp, engine='z3 identity', rec=None):
+    """code == sp as field elements on this path: identical polynomials (z3), or equal modulo the equalities assumed on the
+    path (zero tests that were decided true) and the side relations (certificate)."""
+    t1 = time.time()
+    ans, model, smt = prove_equal([(code, sp)])
+    dt = time.time() - t1
+    samp = dict(samp); samp['smt2_head'] = smt[:500]
+    ce = code.key() == sp.key()
+    if ans == 'unsat' and ce: return Ob(name, 'proved', 'identical polynomials', dt, engine, samp)
+    if ans == 'sat' and not ce:
+        hyps = []
+        if rec is not None:
+            hyps = list(rec['ctx'].__dict__.get('zero_hyps', {}).values()) + side_polys(rec['side'])
+        if hyps:
+            st, dt2, info = certificate(code.sub(sp), hyps)
+            if st == 'proved': return Ob(name, 'proved', 'equal modulo the path equalities: ' + info, dt + dt2, 'sympy cofactors + z3 identity', samp)
+        return Ob(name, 'violated', 'result differs from the specification', dt, engine, samp, {'kind': 'value', 'z3_model': model})
+    return Ob(name, 'inconclusive', f'z3 says {ans}, canonical forms equal={ce}', dt, engine, samp)
+
+def compare_coords(name, a, b, samp, rec):
+    """coordinate-wise compare_fe, folded into one obligation"""
+    subs = [compare_fe(name, x, y, samp, rec=rec) for x, y in zip(a, b)]
+    worst = next((o for o in subs if o.status == 'violated'), None) or next((o for o in subs if o.status == 'inconclusive'), None)
+    if worst is not None: return worst
+    o = subs[0]; o.secs = sum(x.secs for x in subs); o.detail = '; '.join(sorted({x.detail for x in subs})); return o
+
+def check_encode_algebra(build):
+    items = items_for(build); entry = find_item(items, pat_compress_to_field(build)); M = curve_models(build)
+    def body(I, h):
+        el, (X, Y, Z, T) = sym_element(build, ['X', 'Y', 'Z', 'T'])
+        h.locals['e'] = el
+        code = I.call_item(entry, [Ref(h, 'e', [])])
+        return code, spec.encode(I, X, Y, Z, T)
+    obs = []
+    recs = run_paths(items, M, body)
+    for r in recs:
+        name = f'{build}:encode path {"".join("1" if d else "0" for d in r["decisions"])}'
+        samp = {'path': describe_path(r)}
+        if 'panic' in r: obs.append(Ob(name, 'violated', 'code panics: ' + r['panic'], 0, 'mirsym/POLY', samp, {'kind': 'panic'})); continue
+        code, sp = r['result']
+        obs.append(compare_fe(name, code, sp, samp, rec=r))
+    if len(recs) < 4: obs.append(Ob(f'{build}:encode path count', 'inconclusive', f'only {len(recs)} paths', 0, 'mirsym'))
+    return obs
+
+def scaling_sqrt_model(lam):
+    """Lemma L-scale (from contract S, zeta non-square, field axioms):  if sqrt_ratio(1, lam^4*D) may return (w, v') then
+    sqrt_ratio(1, D) returns (w, +-v'*lam^2) for lam != 0.  Used to relate the two runs of representation-independence checks."""
+    lam4 = lam.pow(4)
+    def m(I, fr, fn, a):
+        num, den = models.D(I, a[0]), models.D(I, a[1])
+        memo = I.ctx.__dict__.setdefault('sqrt_memo', {})
+        rel = I.ctx.__dict__.setdefault('sqrt_scaled', {})
+        k = 'sqrt:' + num.key() + '/' + den.key()
+        if k not in memo and not den.is_zero_poly():
+            for k2, (ws2, y2) in list(memo.items()):
+                num2k, den2k = k2[5:].split('/', 1)
+                if num2k == num.key() and den2k == lam4.mul(den).key():
+                    if models.fe_is_zero(I, num): break
+                    if models.fe_is_zero(I, den): break
+                    sigma = I.ctx.decide(z3.Bool('sigma_' + str(len(rel))), key='sigma:' + k)
+                    y = y2.mul(lam.square()); y = y.neg() if sigma else y
+                    rel[k] = k2
+                    memo[k] = (ws2, y)
+                    break
+        return models.sqrt_ratio_contract(I, num, den)
+    return m
+
+def check_encode_invariance(build):
+    """encode(P) is the same for: projective rescaling by lam != 0, the coset shift (-X,-Y,Z,T), and is 0 for both identity representatives"""
+    items = items_for(build); entry = find_item(items, pat_compress_to_field(build))
+    obs = []
+    lam = FE.sym('Fq', 'lam')
+    def enc(I, h, tag, coords):
+        h.locals[tag] = mk_element(build, *coords)
+        return I.call_item(entry, [Ref(h, tag, [])])
+    # (1) rescaling: run the scaled point first, then the unscaled one under lemma L-scale
+    M = curve_models(build, extra=[(r'::(non_arkworks_)?sqrt_ratio_zeta$', scaling_sqrt_model(lam))])
+    def body_scale(I, h):
+        I.ctx.nonzero = {'lam'}
+        X, Y, Z, T = [FE.sym('Fq', n) for n in 'XYZT']
+        s2 = enc(I, h, 'e2', [lam.mul(c) for c in (X, Y, Z, T)])
+        s1 = enc(I, h, 'e1', (X, Y, Z, T))
+        return s1, s2
+    def body_shift(I, h):
+        X, Y, Z, T = [FE.sym('Fq', n) for n in 'XYZT']
+        return enc(I, h, 'e1', (X, Y, Z, T)), enc(I, h, 'e2', (X.neg(), Y.neg(), Z, T))
+    def body_ident(I, h):
+        I.ctx.nonzero = {'lam'}
+        z = FE.const('Fq', 0)
+        return enc(I, h, 'e1', (z, lam, lam, z)), enc(I, h, 'e2', (z, lam.neg(), lam, z)), z
+    for tag, body, Mx in (('rescaling (lam X, lam Y, lam Z, lam T)', body_scale, M), ('coset shift (-X,-Y,Z,T)', body_shift, curve_models(build)), ('identity representatives (0,+-lam,lam,0)', body_ident, curve_models(build))):
+        recs = run_paths(items, Mx, body)
+        for r in recs:
+            name = f'{build}:encode invariant under {tag} path {"".join("1" if d else "0" for d in r["decisions"])}'
+            samp = {'path': describe_path(r)}
+            if 'panic' in r: obs.append(Ob(name, 'violated', 'code panics: ' + r['panic'], 0, 'mirsym/POLY', samp, {'kind': 'panic'})); continue
+            res = r['result']
+            obs.append(compare_fe(name, res[0], res[1], samp, rec=r))
+            if len(res) == 3: obs.append(compare_fe(name + ' (=0)', res[0], res[2], samp, rec=r))
+    return obs
+
+# ---------------------------------------------------------------------------------------------- C07 Elligator
+def pat_elligator(build):
+    return r'^ark_curve::elligator::<impl at [^>]*>::elligator_map$' if build == 'ark' else r'^min_curve::element::<impl at [^>]*>::elligator_map$'
+
+def check_elligator(build):
+    items = items_for(build); entry = find_item(items, pat_elligator(build)); M = curve_models(build)
+    obs = []
+    def body(I, h):
+        r0 = FE.sym('Fq', 'r0')
+        h.locals['r'] = r0; h.locals['rn'] = r0.neg()
+        code = I.call_item(entry, [Ref(h, 'r', [])])
+        sp = spec.elligator(I, r0)
+        coden = I.call_item(entry, [Ref(h, 'rn', [])])
+        return code, sp, coden
+    recs = run_paths(items, M, body)
+    for r in recs:
+        name = f'{build}:elligator path {"".join("1" if d else "0" for d in r["decisions"])}'
+        samp = {'path': describe_path(r)}
+        if 'panic' in r: obs.append(Ob(name, 'violated', 'code panics: ' + r['panic'], 0, 'mirsym/POLY', samp, {'kind': 'panic'})); continue
+        code, sp, coden = r['result']
+        cx = element_coords(build, code); cn = element_coords(build, coden)
+        obs.append(compare_coords(f'{name} == spec (X,Y,Z,T)', cx, sp, samp, r))
+        obs.append(compare_coords(f'{name} invariant under r0 -> -r0', cn, cx, samp, r))
+    if len(recs) < 4: obs.append(Ob(f'{build}:elligator path count', 'inconclusive', f'only {len(recs)} paths', 0, 'mirsym'))
+    return obs
